@@ -156,6 +156,14 @@ def structural_years(tier):
     return sorted(ys)
 
 
+def scan_feature_years(prefix):
+    p = os.path.join(os.environ.get("VERIF_WORK", os.path.join(os.path.dirname(os.path.dirname(os.path.abspath(__file__))), ".work")), "scan.json")
+    try:
+        return {r["feature"]: r["years"] for r in json.load(open(p)) if r["feature"].startswith(prefix)}
+    except Exception:
+        return {}
+
+
 def year_set(tier, seed, budget_quick=None, thorough_n=None):
     ys = set(S_CORE)
     if not budget_quick:
@@ -429,6 +437,17 @@ def c10_units(tier, seed):
     q = tier == "quick"
     us = []
     years = [2024] if q else [2020, 2024]
+    # a (year, month) whose Jie instant falls at 23h (rat hour across the Jie): from the native feature scan
+    late = []
+    for f, ys in scan_feature_years("jie-at-23h-in-month-").items():
+        mth = int(f.rsplit("-", 1)[1])
+        y = min(ys, key=lambda v: abs(v - 2024))
+        late.append((abs(y - 2024), y, mth))
+    late.sort()
+    for (_, y, mth) in late[:1 if q else 3]:
+        for sect in (1, 2):
+            us.append(dict(id=f"C10a[Y={y},m={mth},sect={sect},base={y-3},win=1,jie-at-23h]", harness="calendar.VH_C10_Reverse",
+                           params={"Y": y, "SECT": sect, "BASE": y - 3, "WIN": 1}, concrete={"v_m": mth}))
     for Y in years:
         for m in range(1, 13):
             for sect in (1, 2):
@@ -443,6 +462,6 @@ def c10_units(tier, seed):
     return us
 
 
-PROPS["C10"] = dict(units=c10_units, bounds_text="every second of the three days around the Jie of each month of the listed years (quick: 2024; thorough: 2020, 2024), base year = year-3 (thorough also the default 1900); quick: early-rat convention for all 12 months and the late-rat convention for February; thorough: both conventions for every month; thorough adds the remaining days of February, June and December 2024 under sect 1; candidate-year loop unwound concretely (the clock's current year is read from the host)",
+PROPS["C10"] = dict(units=c10_units, bounds_text="every second of the three days around the Jie of each month of the listed years (quick: 2024; thorough: 2020, 2024), base year = year-3 (thorough also the default 1900); quick: early-rat convention for all 12 months, the late-rat convention for February, and both conventions for the (year, month) nearest 2024 whose Jie instant falls at 23h (from the feature scan); thorough: both conventions for every month; thorough adds the remaining days of February, June and December 2024 under sect 1; candidate-year loop unwound concretely (the clock's current year is read from the host)",
                     outside="years not listed; the days away from the Jie in quick; time.Now() beyond the host clock's year",
                     unit_timeout_ms={"quick": 1500000, "thorough": 3600000})
